@@ -94,6 +94,7 @@ class Recorder:
         self.labels = Counter()
         self.excluded = Counter()
         self.samples = []
+        self._sample_src = []
         self._cj = None
         self._nt = False
         self._key = None
@@ -126,8 +127,15 @@ class Recorder:
             h = int.from_bytes(hashlib.sha1(self._cj.encode()).digest()[:8], "big")
             if h not in self.nt_set:
                 self.nt_set.add(h)
-                if len(self.samples) < 3:
-                    self.samples.append(json.loads(self._cj))
+                # keep the first non-trivial case and the two richest ones (longest JSON <= 4 kB)
+                n = len(self._cj)
+                if len(self._sample_src) < 3:
+                    self._sample_src.append((n, self._cj))
+                elif n <= 4096:
+                    k = min(range(1, 3), key=lambda i: self._sample_src[i][0])
+                    if self._sample_src[k][0] < n:
+                        self._sample_src[k] = (n, self._cj)
+                self.samples = [json.loads(c) for _, c in self._sample_src]
 
     def summary(self):
         return dict(evaluations=self.evaluations, nontrivial=list(self.nt_set),
